@@ -19,14 +19,15 @@ from apischema import settings
 from apischema.json_schema import serialization_schema
 
 import jsonschema
-from jsonschema import Draft202012Validator
+from jsonschema import Draft7Validator, Draft201909Validator, Draft202012Validator
 
 PROP = "C07"
 RULE = (
     "types and values of C04 (typed images of all skeleton data + Undefined / None / default-equal variants; values with "
     "unset tracked fields are excluded as the property says) x settings.serialization.exclude_defaults x exclude_none "
     "(global, set and restored by the driver) x aliaser x additional_properties: serialize(T, v) must validate against "
-    "serialization_schema(T) generated under the same settings; structurally every `required` key must be emitted for "
+    "serialization_schema(T) generated under the same settings, and (exclude_* off) against the schema asked in versions "
+    "2019-09 and draft-07 under these drafts' own validators; structurally every `required` key must be emitted for "
     "every enumerated value and every emitted key must be declared or allowed; plus source worlds of converted types "
     "(registered / dynamic / field conversions, generic conversions, a collection-like class with a registered conversion "
     "under a dynamic conversion on its elements) in the contexts T / List / Dict / Optional. distinct_nontrivial counts distinct "
@@ -94,6 +95,18 @@ def run_type(i, label, spec, tier, st):
                     }
                 )
                 break
+            older = []
+            if not ed and not en:
+                # the same outputs against the schema asked in the older JSON Schema versions, under their own rules
+                from apischema.json_schema import JsonSchemaVersion
+
+                for vname, ver, vcls in (("2019-09", JsonSchemaVersion.DRAFT_2019_09, Draft201909Validator), ("draft-07", JsonSchemaVersion.DRAFT_7, Draft7Validator)):
+                    try:
+                        sv = serialization_schema(rz.tp, version=ver, **kw)
+                        vcls.check_schema(sv)
+                        older.append((vname, vcls(sv), sv))
+                    except Exception as e:
+                        st.violation({"label": label, "type": short(spec), "options": [ed, en, al, ap], "signature": {"kind": "schema_generation", "exc": type(e).__name__, "version": vname}, "what": f"serialization_schema(version={vname}) / check_schema failed: {e!r}"[:300], "source": rz.source})
             for vi, real in enumerate(reals):
                 try:
                     out = apischema.serialize(rz.tp, real, exclude_unset=False, **kw)
@@ -110,6 +123,12 @@ def run_type(i, label, spec, tier, st):
                         continue
                 keys = tuple(sorted(map(repr, out))) if isinstance(out, dict) else type(out).__name__
                 st.case(dc.shape_of(label), (ed, en, al, ap), vi, keys)
+                if validator.is_valid(out):
+                    for vname, vv, sv in older:
+                        st.case(dc.shape_of(label), (vname, al, ap), vi, keys)
+                        if not vv.is_valid(out):
+                            kwd = deciding_keyword(vv, out)
+                            st.violation({"label": label, "type": short(spec), "options": [ed, en, al, ap], "value": repr(real)[:300], "signature": {"kind": "invalid_output_older_version", "version": vname, "keyword": kwd, "shape": dc.shape_of(label).split("[")[0]}, "what": f"serialize gives {out!r} which validates against the 2020-12 serialization schema but not against the {vname} one (keyword {kwd})"[:400], "schema": json.dumps(sv)[:1500], "source": rz.source})
                 if not validator.is_valid(out):
                     kwd = deciding_keyword(validator, out)
                     st.violation(
